@@ -85,9 +85,15 @@ func c11Spec(rng *rand.Rand, i int) (*SessSpec, string) {
 	case "rm-waiting":
 		// an event is waiting in rollback mitigation when the rebalance closes the stream
 		sp.RollbackMitigation = true
+		// a long poll interval: the waiting goroutine re-checks every interval/5 = 80 ms, i.e. it wakes up
+		// after the (few ms long) close has finished
+		sp.RMIntervalMs = 400
 		vb := 0
-		sp.Steps = append(sp.Steps, Step{Op: "persistbelow", VB: vb, N: 1}, Step{Op: "sleep", Ms: 60}, Step{Op: "append", VB: vb, Items: []ItemSpec{{K: "m", Key: []byte("waits-1"), Val: []byte("{}")}, {K: "m", Key: []byte("waits-2"), Val: []byte("{}")}}},
-			Step{Op: "sleep", Ms: 50}, put(false), Step{Op: "waitcycles", N: (i % 2) + 1, Ms: 5000}, Step{Op: "persistbelow", VB: vb, N: 1 << 40})
+		// the stream stays closed for the rebalance delay: a released event would arrive inside the closed window
+		sp.Membership = "kubernetesHa"
+		// the marker and the first item pass the gate, the second item (not the marker) is the one waiting
+		sp.Steps = append(sp.Steps, Step{Op: "persistbelow", VB: vb, N: 1}, Step{Op: "waitrounds", VB: vb, N: 2}, Step{Op: "append", VB: vb, Items: []ItemSpec{{K: "m", Key: []byte("passes-1"), Val: []byte("{}")}, {K: "m", Key: []byte("waits-2"), Val: []byte("{}")}}},
+			Step{Op: "persistbelow", VB: vb, Sel: "high-1"}, Step{Op: "waitrounds", VB: vb, N: 2}, Step{Op: "sleep", Ms: 120}, put(false), Step{Op: "waitcycles", N: (i % 2) + 1, Ms: 5000}, Step{Op: "persistbelow", VB: vb, N: 1 << 40})
 	case "single":
 		sp.Steps = append(sp.Steps, put(false))
 	case "during-close-put":
